@@ -73,6 +73,7 @@ def check(run, project):
     b2_b3(run, project)
     b4(run, project)
     b5(run, L)
+    b6(run, project)
     run.floor("B5", 100, "primitive types")
 
 
@@ -236,3 +237,20 @@ def b5(run, L):
         run.ob("B5", not bad, f"{k}: valid values fit {w}-bit {'signed' if s else 'unsigned'}",
                f"allowed values {bad[:3]} do not fit the declared width (decode accepts them, to_bytes raises OverflowError)",
                module=c.module, node=c.node, func=k, construct=f"{k} valid range vs width")
+
+
+def b6(run, project):
+    """the re-encoding path has no failure sites of its own: int.to_bytes is the only place where a width
+    overflow may be reported, and B5 shows that no allowed value overflows (any other raise/assert on this path
+    is either dead or rejects a value that decoding accepted)."""
+    sites = [(BASE, "_INT.to_bytes"), (CONSTANTS, "AlgValue.to_bytes"), (UNMARSHAL, "to_bytes"), (UNMARSHAL, "unmarshal")]
+    for modname, q in sites:
+        mod = project.module(modname)
+        fn = mod.functions().get(q)
+        if fn is None:
+            raise AnalysisError(f"B6: {modname}.{q} not found")
+        bad = [n for n in walk_no_nested(fn) if isinstance(n, (ast.Raise, ast.Assert))]
+        run.ob("B6", not bad, f"{q}: no failure site of its own on the encode path",
+               f"`{norm(bad[0]).splitlines()[0][:90]}`: the encoder can reject a value that decoding accepted (the only legitimate width "
+               "check is int.to_bytes itself, and by B5 no allowed value overflows its declared width)" if bad else "",
+               module=mod, node=bad[0] if bad else fn, func=q, construct=f"{q} raise/assert")
